@@ -143,3 +143,13 @@ pub fn trap_report(oom: bool) {
     // the report is not indivisible: other tasks may run while it is being written
     crate::sched_point();
 }
+
+/// Committed bytes per space of the generational collector at the out-of-memory trap
+/// (0 = not recorded); written to the statistics file for the classification of the trap.
+pub static OOM_HEAP: [AtomicU64; 3] = [const { AtomicU64::new(0) }; 3];
+
+pub fn heap_at_oom(young: usize, old: usize, large: usize) {
+    OOM_HEAP[0].store(young as u64, Ordering::Relaxed);
+    OOM_HEAP[1].store(old as u64, Ordering::Relaxed);
+    OOM_HEAP[2].store(large as u64, Ordering::Relaxed);
+}
